@@ -19,9 +19,10 @@ ASHAPES = [((), {}), ((1,), {}), ((1, "two"), {}), ((), {"x": 1}), ((1,), {"x": 
 MODES = [(0, i) for i in range(len(T.C02_VALUES))] + [(1, i) for i in range(len(T.C02_EXCS))] + [(2, i) for i in range(len(T.BIG_SIZES))] + [(3, 0)]
 
 
-def h_diff(kind, route, runflag, hastarget, mode, ashape):
+def h_diff(kind, route, runflag, hastarget, mode, ashape, prior=0):
     with notrace():
         kind_, route_, runflag_, hast_ = conc(kind, 3), conc(route, 2), conc(runflag, 3), conc(hastarget, 2)
+        prior_ = conc(prior, 3)
         mode_, ashape_ = conc(mode, len(MODES)), conc(ashape, len(ASHAPES))
         name = wsim.KIND_NAMES[kind_]
         m, idx = MODES[mode_]
@@ -30,6 +31,13 @@ def h_diff(kind, route, runflag, hastarget, mode, ashape):
         T.reset()
         W = wsim.World(server=wsim.is_remote_kind(kind_))
         try:
+            if prior_:
+                # history: another worker of the same kind was made through a factory earlier in this process
+                from pyworkers.persistent import PersistentWorker
+                wt = [WorkerType.THREAD, WorkerType.PROCESS, WorkerType.REMOTE][kind_]
+                kw0 = {"host": wsim.SERVER_ADDR} if wsim.is_remote_kind(kind_) else {}
+                w0 = (PersistentWorker if prior_ == 1 else Worker).create(wt, T.add, args=[1, 2], **kw0)
+                w0.wait(timeout=10)
             sig, interesting = _run(W, kind_, route_, runflag_, hast_, m, idx, a, k)
         finally:
             errs = W.close()
@@ -105,7 +113,7 @@ def _run(W, kind, route, runflag, hastarget, m, idx, a, k):
 
 
 _params = OrderedDict([("kind", (0, 2)), ("route", (0, 1)), ("runflag", (0, 2)), ("hastarget", (0, 1)),
-                       ("mode", (0, len(MODES) - 1)), ("ashape", (0, len(ASHAPES) - 1))])
+                       ("mode", (0, len(MODES) - 1)), ("ashape", (0, len(ASHAPES) - 1)), ("prior", (0, 2))])
 
 _FUNCS = ["pyworkers.worker:Worker.__init__", "pyworkers.worker:Worker.create", "pyworkers.worker:Worker.run", "pyworkers.worker:Worker.do_work",
           "pyworkers.thread:ThreadWorker._run", "pyworkers.process:ProcessWorker._run", "pyworkers.process:ProcessWorker.wait",
@@ -115,8 +123,9 @@ _FUNCS = ["pyworkers.worker:Worker.__init__", "pyworkers.worker:Worker.create", 
 H_DIFF = Harness(
     "diff", "vf.props.c02:h_diff", _params,
     tiers={
-        "quick": {"extra_pre": ["ashape <= 3 or ashape >= 6"], "partition": ["kind", "route", "runflag"], "timeout": 300, "twin_fixed": {"kind": 1, "route": 0, "runflag": 0}},
-        "thorough": {"partition": ["kind", "route", "runflag", "hastarget", "ashape"], "timeout": 900,
+        "quick": {"extra_pre": ["ashape <= 3 or ashape >= 6", "prior == 0 or (route == 1 and ashape <= 1 and mode % 4 == 0)"],
+                  "partition": ["kind", "route", "runflag"], "timeout": 300, "twin_fixed": {"kind": 1, "route": 0, "runflag": 0}},
+        "thorough": {"extra_pre": ["prior == 0 or route == 1"], "partition": ["kind", "route", "runflag", "hastarget", "ashape"], "timeout": 900,
                      "twin_fixed": {"kind": 1, "route": 0, "runflag": 0, "hastarget": 1, "ashape": 1}},
     },
     functions=_FUNCS,
@@ -129,6 +138,8 @@ SPEC = PropSpec(
         "pipe capacity of the virtual OS: 200 KiB per direction (AF_UNIX socketpair default); a frame larger than the free capacity blocks the writer until a "
         "reader is draining the pipe; result sizes 0 B, 100 B, 70 KiB, 300 KiB, 2 MiB",
         "values cross the process boundary through the real pickle module",
+        "prior: optionally a persistent (1) or one-shot (2) worker of the same kind is created through the factory first; class-level containers of the worker "
+        "classes are emptied before every path",
         "classes defined in the main script: vf/targets.py MainBox can only be unpickled in a process that has the user's main script as its main module - "
         "the parent, processes spawned by multiprocessing (spawn re-imports it), and a remote backend only after _run_backend ran runpy.run_path(main_path)",
     ],
